@@ -389,6 +389,16 @@ func (e *Exec) namedLocal(fr *frame, st *State, name string, li *loopInfo) (Valu
 			}
 		}
 	}
+	if best == nil && fr.c != nil {
+		// renamed since the contract was written: the recorded type and ordinal find the local again
+		if lb, ok := fr.c.LocalAlias[name]; ok {
+			if a := allocByBinding(fr.fn, lb); a != nil {
+				if _, ok := fr.vals[a]; ok {
+					best = a
+				}
+			}
+		}
+	}
 	if best == nil {
 		// captured variable of a closure
 		for i, fv := range fr.fn.FreeVars {
